@@ -131,7 +131,7 @@ def tabulate(est, kind, sample, rng, smooth=True):
     mo = {"mean": q((mu - mean) / sd * M), "var": q(var / sd ** 2 * M), "skew": q(skw * M), "kurt": q(kur * M),
           "mean_r": q(mr[0] * M), "var_r": q(mr[1] * M), "skew_r": q(mr[2] * M), "kurt_r": q(mr[3] * M),
           "mean_w": q(mw[0] * M), "var_w": q(mw[1] * M), "skew_w": q(mw[2] * M), "kurt_w": q(mw[3] * M)}
-    rec = {"int_ok": int_ok, "smooth": bool(smooth), "mtol": 2 if kind == "unimodal" else 1000, "P": [q(v * dx * U) for v in p], "F": [q(v * U) for v in F], "Fs": Fs, "out": q(out * U), "pm": q(pm * dx * U), "Pl": Pl, "iv": iv, "mo": mo}
+    rec = {"int_ok": int_ok, "smooth": bool(smooth), "mtol": 4 if kind == "unimodal" else 1000, "P": [q(v * dx * U) for v in p], "F": [q(v * U) for v in F], "Fs": Fs, "out": q(out * U), "pm": q(pm * dx * U), "Pl": Pl, "iv": iv, "mo": mo}
     norm = {"mean": (mu - mean) / sd, "var": var / sd ** 2, "skew": skw, "kurt": kur, "ends": ends, "p_mode": pm * sd,
             "limits": [(lo - mean) / sd, (hi - mean) / sd]}
     return rec, norm
